@@ -341,7 +341,9 @@ def cmd_check(prop, tier, repo, seed):
         print(f'no obligations registered for {prop}')
         return 2
     known = load_known()
-    evidence_path = os.path.join(VERIF, 'evidence', f'{prop}.json')
+    # evidence is only recorded for runs against /repo itself (seeded / scratch copies write elsewhere)
+    ev_dir = os.path.join(VERIF, 'evidence') if os.path.realpath(repo) == '/repo' else os.path.join(tempfile.gettempdir(), 'verif-evidence-scratch')
+    evidence_path = os.path.join(ev_dir, f'{prop}.json')
     os.makedirs(os.path.dirname(evidence_path), exist_ok=True)
     if os.path.exists(evidence_path):
         os.remove(evidence_path)
